@@ -38,76 +38,143 @@ type flagTriple struct {
 func (t flagTriple) String() string { return fmt.Sprintf("byte[%d]&%#x<->%s", t.idx, t.mask, t.field) }
 
 // toBytesTriples: if m.F { b[i] |= M }
-func toBytesTriples(fn *ssa.Function) ([]flagTriple, int64, string) {
+// toBytesTriples: the (byte index, mask, field) triples written by ToBytes and the length it allocates. A flag write is a
+// store `buf[i] = buf[i] | mask` (constant i and mask, in the writer's terms) that executes exactly under a test of a field
+// of the receiver; writes made by a helper that is handed the field value and the mask are read in the helper, in the
+// writer's terms.
+func toBytesTriples(p *Prog, fn *ssa.Function) ([]flagTriple, int64, string) {
 	var out []flagTriple
 	var mk int64 = -1
-	for _, b := range fn.Blocks {
-		for _, in := range b.Instrs {
-			if ms, ok := in.(*ssa.MakeSlice); ok {
-				if k, ok := constInt(ms.Len); ok {
-					mk = k
-				}
-			}
-			if sl, ok := in.(*ssa.Slice); ok { // make with a constant size is `new [n]T` sliced
-				if al, ok := sl.X.(*ssa.Alloc); ok {
-					if at, ok := al.Type().(*types.Pointer).Elem().Underlying().(*types.Array); ok && sl.Low == nil {
-						mk = at.Len()
-						if sl.High != nil {
-							if k, ok := constInt(sl.High); ok {
-								mk = k
+	recv := "P:" + paramName(fn.Params[0])
+	why := ""
+	var walk func(e *Env, depth int)
+	walk = func(e *Env, depth int) {
+		for _, b := range e.Fn.Blocks {
+			for _, in := range b.Instrs {
+				switch x := in.(type) {
+				case *ssa.MakeSlice:
+					if k, ok := constInt(x.Len); ok {
+						mk = k
+					}
+				case *ssa.Slice: // make with a constant size is `new [n]T` sliced
+					if al, ok := x.X.(*ssa.Alloc); ok {
+						if at, ok := al.Type().(*types.Pointer).Elem().Underlying().(*types.Array); ok && x.Low == nil {
+							mk = at.Len()
+							if x.High != nil {
+								if k, ok := constInt(x.High); ok {
+									mk = k
+								}
 							}
 						}
 					}
+				case *ssa.Call:
+					if sc := x.Call.StaticCallee(); sc != nil && len(sc.Blocks) > 0 && sc.Pkg != nil && strings.HasPrefix(sc.Pkg.Pkg.Path(), modPath) && depth < 3 && sc != e.Fn {
+						walk(e.Sub(x, sc), depth+1)
+					}
+				case *ssa.Store:
+					ia, ok := x.Addr.(*ssa.IndexAddr)
+					if !ok || !isInteger(x.Val.Type()) {
+						continue
+					}
+					il := e.LE(ia.Index)
+					if !il.isConst() {
+						why = "non-constant byte index at " + p.InstrPos(x)
+						return
+					}
+					bo, ok := x.Val.(*ssa.BinOp)
+					if !ok || bo.Op != token.OR {
+						why = "a byte is written by something else than |= mask"
+						return
+					}
+					ml := e.LE(bo.Y)
+					if !ml.isConst() {
+						ml = e.LE(bo.X)
+					}
+					if !ml.isConst() {
+						why = "non-constant mask"
+						return
+					}
+					// the field under which the write executes
+					field := ""
+					for _, f := range e.factsAt(b, x, nil) {
+						if !f.Lin && f.Pos && strings.HasPrefix(f.Atom, "cond:*"+recv+".") {
+							field = strings.TrimPrefix(f.Atom, "cond:*"+recv+".")
+						}
+					}
+					if field == "" {
+						why = "flag write is not guarded by a test of a field of the receiver"
+						return
+					}
+					out = append(out, flagTriple{il.k, ml.k, field})
 				}
 			}
-			st, ok := in.(*ssa.Store)
-			if !ok {
-				continue
-			}
-			ia, ok := st.Addr.(*ssa.IndexAddr)
-			if !ok {
-				continue
-			}
-			i, ok := constInt(ia.Index)
-			if !ok {
-				return nil, mk, "non-constant byte index at block " + fmt.Sprint(b.Index)
-			}
-			bo, ok := st.Val.(*ssa.BinOp)
-			if !ok || bo.Op != token.OR {
-				return nil, mk, "a byte is written by something else than |= mask"
-			}
-			m, ok := constInt(bo.Y)
-			if !ok {
-				m, ok = constInt(bo.X)
-			}
-			if !ok {
-				return nil, mk, "non-constant mask"
-			}
-			// the guard of this block
-			if len(b.Preds) != 1 {
-				return nil, mk, "flag write is not guarded by a single field test"
-			}
-			pb := b.Preds[0]
-			iff, ok := pb.Instrs[len(pb.Instrs)-1].(*ssa.If)
-			if !ok || pb.Succs[0] != b {
-				return nil, mk, "flag write is not on the true branch of a field test"
-			}
-			ld, ok := iff.Cond.(*ssa.UnOp)
-			if !ok {
-				return nil, mk, "flag write is guarded by something else than a field"
-			}
-			fa, ok := ld.X.(*ssa.FieldAddr)
-			if !ok {
-				return nil, mk, "flag write is guarded by something else than a field"
-			}
-			out = append(out, flagTriple{i, m, fieldName(fa.X.Type(), fa.Field)})
 		}
+	}
+	walk(p.Env(fn), 0)
+	if why != "" {
+		return nil, mk, why
 	}
 	return out, mk, ""
 }
 
 // fromBytesTriples: F: (b[i] & M) != 0 ; plus the tested length and whether the other-length return is the zero value
 var flagReadRe = regexp.MustCompile(`^\(\(\*(P:[A-Za-z_0-9]+)\[(\d+)\] & (\d+)\) != 0\)$`)
+
+// flagRead: v is `(par[i] & mask) != 0`, directly or as the result of a boolean helper whose other returns are the constant
+// false under a length test of par (which then is the tested length).
+func flagRead(e *Env, v ssa.Value, par string) (i, m, tested int64, why string) {
+	tested = -1
+	if mm := flagReadRe.FindStringSubmatch(e.Term(v)); mm != nil {
+		if mm[1] != par {
+			return 0, 0, -1, "the reader does not index its parameter"
+		}
+		fmt.Sscan(mm[2], &i)
+		fmt.Sscan(mm[3], &m)
+		return i, m, -1, ""
+	}
+	call, ok := v.(*ssa.Call)
+	if !ok {
+		return 0, 0, -1, "is not computed as (byte & mask) != 0 but as " + e.Term(v)
+	}
+	sc := call.Call.StaticCallee()
+	if sc == nil || len(sc.Blocks) == 0 || sc.Pkg == nil || !strings.HasPrefix(sc.Pkg.Pkg.Path(), modPath) || e.depth >= 3 {
+		return 0, 0, -1, "is not computed as (byte & mask) != 0 but as " + e.Term(v)
+	}
+	sub := e.Sub(call, sc)
+	found := false
+	for _, r := range returnsOf(sc) {
+		rv := retval(r, 0)
+		if k, isK := boolConst(rv); isK {
+			if k {
+				return 0, 0, -1, "the helper " + sc.Name() + " can report a flag as set without reading it"
+			}
+			// constant false: only for another length
+			okLen := false
+			for _, f := range sub.factsAt(r.Block(), r, nil) {
+				if !f.Lin && !f.Pos && strings.HasPrefix(f.Atom, "zero(len("+par+") - ") {
+					fmt.Sscan(strings.TrimSuffix(strings.TrimPrefix(f.Atom, "zero(len("+par+") - "), ")"), &tested)
+					okLen = true
+				}
+			}
+			if !okLen {
+				return 0, 0, -1, "the helper " + sc.Name() + " reports false on a path that is not the wrong-length path"
+			}
+			continue
+		}
+		i2, m2, _, w := flagRead(sub, rv, par)
+		if w != "" {
+			return 0, 0, -1, w
+		}
+		if found && (i2 != i || m2 != m) {
+			return 0, 0, -1, "the helper " + sc.Name() + " reads different bits on different paths"
+		}
+		i, m, found = i2, m2, true
+	}
+	if !found {
+		return 0, 0, -1, "the helper " + sc.Name() + " never reads the flag"
+	}
+	return i, m, tested, ""
+}
 
 func fromBytesTriples(p *Prog, fn *ssa.Function) ([]flagTriple, int64, string) {
 	var out []flagTriple
@@ -143,18 +210,16 @@ func fromBytesTriples(p *Prog, fn *ssa.Function) ([]flagTriple, int64, string) {
 			if !ok {
 				continue
 			}
-			// the stored value, as a term (helpers such as isFlagSet(b, mask) are looked through): ((*par[i] & mask) != 0)
-			t := e.Term(st.Val)
-			mm := flagReadRe.FindStringSubmatch(t)
-			if mm == nil {
-				return nil, tested, "field " + fieldName(fa.X.Type(), fa.Field) + " is not computed as (byte & mask) != 0 but as " + t
+			i, m, t2, w := flagRead(e, st.Val, par)
+			if w != "" {
+				return nil, tested, "field " + fieldName(fa.X.Type(), fa.Field) + " " + w
 			}
-			if mm[1] != par {
-				return nil, tested, "the reader does not index its parameter"
+			if t2 >= 0 {
+				if tested >= 0 && tested != t2 {
+					return nil, tested, "two different lengths are tested"
+				}
+				tested = t2
 			}
-			var i, m int64
-			fmt.Sscan(mm[2], &i)
-			fmt.Sscan(mm[3], &m)
 			out = append(out, flagTriple{i, m, fieldName(fa.X.Type(), fa.Field)})
 		}
 	}
@@ -176,7 +241,7 @@ func c20r1(c *Ctx) {
 			c.Anchor(rule, x.typ+".ToBytes / "+x.from)
 			continue
 		}
-		w, made, werr := toBytesTriples(to)
+		w, made, werr := toBytesTriples(c.P, to)
 		r, tested, rerr := fromBytesTriples(c.P, from)
 		construct := x.typ + " flag table"
 		pos := c.P.Pos(to.Pos())
